@@ -53,6 +53,9 @@ def cases_for(prop, tier):
             yield {'stack': 'get', 'vec': v, 'pending': True}
         yield {'stack': 'get', 'vec': 'ss', 'pending': False}
         yield {'stack': 'get', 'vec': 'sw', 'pending': True, 'twice': True}
+    elif prop == 'C15':
+        yield {'stack': 'same-uid', 'n': 2}
+        yield {'stack': 'same-uid', 'n': 2, 'pre': True}
     elif prop == 'C20':
         yield {'stack': 'same-uid', 'n': 2}
         yield {'stack': 'same-uid', 'n': 2, 'pre': True}       # the instance is already in the directory
@@ -66,6 +69,7 @@ def cases_for(prop, tier):
             yield {'stack': 'commit', 'outcome': v}
         yield {'stack': 'echo-store', 'n': 2}
         yield {'stack': 'move', 'vec': 'sf'}
+        yield {'stack': 'move', 'vec': 's', 'dest_fault': 'hang-after-last'}      # answered even if the sub-association cannot be released
         yield {'stack': 'find', 'k': 2, 'style': 'fresh', 'maxlen': 16384, 'err': True, 'sop': FIND}
 
 
